@@ -213,6 +213,8 @@ def run(model, rep, rule='C01.ALL'):
         sources['rename: ' + k] = v
     for k, v in hoist_e2e.PROBES.items():
         sources['hoist: ' + k] = v
+    for k, v in rename_e2e.REUSE_PROBES.items():
+        sources['name reuse: ' + k] = v
 
     def run_cfg(source, **over):
         opts = dict(defaults, **over)
@@ -264,7 +266,9 @@ def run(model, rep, rule='C01.ALL'):
             except AnalysisError as e:
                 if 'bound in two scopes' not in str(e):
                     raise
-                problems = []      # the rename oracle needs one name per binding; this probe is judged in the other three configurations only
+                problems = []      # the classic rename oracle needs one name per binding; the resolution oracle below does not
+            if not problems:
+                problems = rename_e2e.judge_resolution(judge_src, t2)
             rep.check(not problems, rule, mi.loc(), 'probe `%s`, defaults without hoisting' % label, 'alpha-equivalent to the transformed module',
                       '; '.join(problems[:3]) + ' -- output: %r' % t2[:160], key=key)
         # (iii) + hoisting
